@@ -291,6 +291,21 @@ Definition om_union (c : cfg) (ord1 ord2 : list Z -> list Z) (ks : list Z) (om :
   let data := fold_left (fun d k => zset_add k d) (ord1 (zset_of ks)) (om_data om) in
   mk_omap data (order_keys (c_omap_sorted c) ord2 data).
 
+(** the API of SortedMap as a history of operations (BuildFrom, Set, Delete, Union) *)
+Inductive omap_op :=
+| OBuild (ks : list Z)
+| OSet (k : Z)
+| ODelete (k : Z)
+| OUnion (ks : list Z).
+
+Definition omap_apply (c : cfg) (π : sched) (path : list Z) (op : omap_op) (om : omap) : omap :=
+  match op with
+  | OBuild ks => om_build c (π (0 :: path)) ks
+  | OSet k => om_set k om
+  | ODelete k => om_delete k om
+  | OUnion ks => om_union c (π (1 :: path)) (π (2 :: path)) ks om
+  end.
+
 (** Keeper.AddPrecompiles *)
 Definition add_precompiles (c : cfg) (π : sched) (path : list Z) (addrs : list Z) (om : omap) : omap :=
   match om_data om with
